@@ -233,3 +233,65 @@ func genTrap2Tree(r *rand.Rand, ps *ParamSpec, now0 int64) *Tree {
 	ps.Checkpoints = []int{t.main[c1-1].ID, t.main[c2-1].ID}
 	return t
 }
+
+// genCpInvTree: see cpInvInfo.
+func genCpInvTree(r *rand.Rand, ps *ParamSpec, now0 int64) *Tree {
+	t := newTree(mkParams(*ps, nil))
+	n := 10 + r.Intn(9)
+	cur := t.Nodes[0]
+	for i := 0; i < n; i++ {
+		cur = t.mine(r, cur, dtFor(r, cur), "", now0)
+		t.main = append(t.main, cur)
+	}
+	c := 5 + r.Intn(n-6) // 5 .. n-2
+	h := 2 + r.Intn(c-2) // 2 .. c-1
+	kind := []string{"time-old", "time-old", "time-old", "time-old", "bits", "bits", "bits", "version", "time-new", "pow"}[r.Intn(10)]
+	info := &cpInvInfo{c: int32(c), h: int32(h)}
+	info.bad = t.mine(r, t.atHeight(h-1), dtFor(r, t.atHeight(h-1)), kind, now0)
+	info.badLeaf = info.bad
+	if r.Intn(2) == 0 {
+		info.badLeaf = t.grow(r, info.bad, 1+r.Intn(2), now0)
+	}
+	t.cpinv = info
+	ps.Checkpoints = []int{t.main[c-1].ID}
+	if r.Intn(3) == 0 && c+2 <= n {
+		ps.Checkpoints = append(ps.Checkpoints, t.main[c+1+r.Intn(n-c-1)].ID)
+	}
+	return t
+}
+
+// genRetargetTree: see retargetInfo.
+func genRetargetTree(r *rand.Rand, ps *ParamSpec, now0 int64) *Tree {
+	ps.NoRetarget, ps.ReduceMin = false, false
+	t := newTree(mkParams(*ps, nil))
+	b := int(t.bpr)
+	cur := t.Nodes[0]
+	add := func(dt int64) {
+		cur = t.mine(r, cur, dt, "", now0)
+		t.main = append(t.main, cur)
+	}
+	// heights 1 .. 2b-1: one second apart (periods far shorter than
+	// timespan/4): the target drops by 4 at height b and again at 2b
+	for len(t.main) < 2*b-1 {
+		add(1)
+	}
+	info := &retargetInfo{hMin: int32(2 * b), hMax: int32(3 * b)}
+	info.minBad = t.mine(r, cur, 1, "noclamp", now0)
+	add(1) // height 2b, correctly clamped
+	// heights 2b+1 .. 3b-1: far apart (period longer than timespan*4, but
+	// short enough for the unclamped target to stay below the limit)
+	slow := int64(40*b/(b-1)) * int64(3+r.Intn(3)) / 2 // 1.5 .. 2.5 times the bound
+	for len(t.main) < 3*b-1 {
+		add(slow)
+	}
+	info.maxBad = t.mine(r, cur, 10, "noclamp", now0)
+	add(10) // height 3b, correctly clamped
+	for i := 2 + r.Intn(4); i > 0; i-- {
+		add(5 + int64(r.Intn(10)))
+	}
+	n := len(t.main)
+	info.minBadLeaf = t.grow(r, info.minBad, n-2*b+1, now0)
+	info.maxBadLeaf = t.grow(r, info.maxBad, n-3*b+1, now0)
+	t.rtg = info
+	return t
+}
